@@ -37,9 +37,11 @@ type c11Case struct {
 	// huge or variable lengths on any type): they are part of the reachable cache contents and must survive,
 	// or at least not endanger, the round trip of everybody else's templates
 	Weird []wire.Hex `json:"weird,omitempty"`
+	// OtherFS: the cache file lives on a file system other than the temporary directory's
+	OtherFS bool `json:"other_fs,omitempty"`
 }
 
-const c11Rule = "case = a template cache built by a generated announce/re-announce/data history (IPFIX or NetFlow v9, several exporters, plain/options/enterprise templates, optionally adversarial templates with no or zero-length fields from one more exporter) dumped to a file F (to a fresh path, or over an existing longer file: the same cache re-indented, a document with trailing octets, a long unrelated document), " +
+const c11Rule = "case = a template cache built by a generated announce/re-announce/data history (IPFIX or NetFlow v9, several exporters, plain/options/enterprise templates, optionally adversarial templates with no or zero-length fields from one more exporter) dumped to a file F (in a quarter of the cases on a file system other than the temporary directory's; to a fresh path, or over an existing longer file: the same cache re-indented, a document with trailing octets, a long unrelated document), " +
 	"+ up to 40 corruptions of F; (a) round trip: after GetCache(F) every saved (exporter,id) decodes data exactly as before (records and error text), unannounced pairs stay unknown, and saving the loaded cache again reproduces the file byte for byte; " +
 	"(b) crash points: EVERY prefix F[:k] (all k when |F| <= 6 KiB, otherwise the first/last 1.5 KiB, 64 octets around every shard boundary and 600 sampled offsets) is loaded; " +
 	"(c) byte-level (flip, delete, insert, duplicate a range) and structure-level corruptions via a generic JSON tree (drop/null shards, null or wrongly typed Templates, extra shards, wrong/huge/negative/string ShardNo, " +
@@ -363,6 +365,13 @@ func runC11(c *c11Case) (v verdict, sig string, err error) {
 		return v, "", fmt.Errorf("harness: %v", e)
 	}
 	defer os.RemoveAll(dir)
+	if c.OtherFS {
+		if d := otherFSDir("verif-c11-"); d != "" {
+			defer os.RemoveAll(d)
+			dir = d
+			v.label(true, "cache-file-on-another-file-system")
+		}
+	}
 	file := filepath.Join(dir, "cache.json")
 	var derr error
 	func() {
@@ -580,6 +589,7 @@ func TestC11(t *testing.T) {
 		proto := rapid.SampledFrom([]string{"ipfix", "nf9"}).Draw(t, "proto")
 		c := c11Case{Hist: genC04(t, proto, envs[proto]), PrefixSeed: rapid.IntRange(0, 1<<20).Draw(t, "prefixseed")}
 		c.Prefill = rapid.SampledFrom([]string{"", "", "pretty", "tail", "big", "older"}).Draw(t, "prefill")
+		c.OtherFS = rapid.IntRange(0, 3).Draw(t, "otherfs") == 0
 		if rapid.Bool().Draw(t, "weird") {
 			nw := rapid.IntRange(1, 3).Draw(t, "nweird")
 			for i := 0; i < nw; i++ {
